@@ -111,6 +111,7 @@ fn cfg_id(c: &ClusterConfig) -> String {
 }
 
 pub struct World {
+    last_repl: u64,
     store: MetaStore,
     r0: i64,
     snaps: Vec<MetaStore>,
@@ -432,8 +433,10 @@ fn apply(w: &mut World, toks: &[&str]) -> (String, String) {
         "delfree" => (same, unit_res(st.auto_delete_free_nodes(cname(u(toks[1]))))),
         "migrate" => (same, unit_res(st.migrate_slots(cname(u(toks[1]))))),
         "scaledown" => (same, unit_res(st.migrate_slots_to_scale_down(cname(u(toks[1])), u(toks[2]) as usize))),
-        "commit" | "commitnth" => {
+        "commit" | "commitnth" | "commitstale" => {
             let n = u(toks[1]);
+            // commitstale n j clr delta: the j-th pending migration's ranges with an epoch that is `delta` too old
+            let stale_delta: u64 = if toks[0] == "commitstale" { u(toks[4]) } else { 0 };
             let (epoch, tag, clr, ranges) = if toks[0] == "commit" {
                 (u(toks[2]), toks[3].to_string(), toks[4] == "1", parse_ranges(toks[5]))
             } else {
@@ -452,7 +455,7 @@ fn apply(w: &mut World, toks: &[&str]) -> (String, String) {
                     (0, "m".to_string(), toks[3] == "1", vec![])
                 } else {
                     let (e, r) = outs[(u(toks[2]) as usize) % outs.len()].clone();
-                    (e, "m".to_string(), toks[3] == "1", r)
+                    (e.saturating_sub(stale_delta), "m".to_string(), toks[3] == "1", r)
                 }
             };
             let name = match ClusterName::try_from(cname(n).as_str()) {
@@ -512,12 +515,29 @@ fn apply(w: &mut World, toks: &[&str]) -> (String, String) {
             (format!("autochange {} {} {}", toks[1], toks[2], pairs), res)
         }
         "autoscaleout" => (same, unit_res(st.auto_scale_out_node_number(cname(u(toks[1])), u(toks[2]) as usize))),
-        "replace" => {
-            let a = u(toks[1]);
+        "replace" | "replacelast" | "replacemember" => {
+            // replacelast <lim> ?: fail the proxy that was chosen as the most recent replacement;
+            // replacemember <cluster> <k> <lim> ?: fail the k-th (mod count) proxy of the cluster. Both resolve to a plain `replace`.
+            let (a, lim_tok) = if toks[0] == "replacelast" {
+                (w.last_repl, toks[1])
+            } else if toks[0] == "replacemember" {
+                let members: Vec<u64> = chunks_of(st, u(toks[1]))
+                    .iter()
+                    .flat_map(|c| c.proxy_addresses.iter().map(|a| id_of(a)).collect::<Vec<_>>())
+                    .collect();
+                let id = if members.is_empty() { 0 } else { members[(u(toks[2]) as usize) % members.len()] };
+                (id, toks[3])
+            } else {
+                (u(toks[1]), toks[2])
+            };
+            let toks: Vec<&str> = vec!["replace", "", lim_tok];
+            let a_s = a.to_string();
+            let toks = [toks[0], a_s.as_str(), toks[2]];
             let r = st.replace_failed_proxy(paddr(a), u(toks[2]));
             let (ch, res) = match r {
                 Ok(Some(p)) => {
                     let id = id_of(p.get_address());
+                    w.last_repl = id;
                     (id.to_string(), format!("repl:{}", id))
                 }
                 Ok(None) => ("-".to_string(), "repl:-".to_string()),
@@ -621,6 +641,7 @@ pub fn run_case(_rt: &tokio::runtime::Runtime, line: &str) -> String {
     assert!(hd[0] == "H");
     let ordered = hd[1] == "1";
     let mut w = World {
+        last_repl: 0,
         store: MetaStore::new(ordered),
         r0: chrono::Utc::now().timestamp(),
         snaps: vec![],
@@ -633,6 +654,7 @@ pub fn run_case(_rt: &tokio::runtime::Runtime, line: &str) -> String {
     let mut resolved = vec![format!("H {}", hd[1])];
     let mut outs = vec![];
     let mut prev: Option<crate::mon::Prev> = None;
+    let mut failed_truth: std::collections::HashSet<u64> = std::collections::HashSet::new();
     for seg in segs {
         if seg.is_empty() {
             continue;
@@ -654,7 +676,9 @@ pub fn run_case(_rt: &tokio::runtime::Runtime, line: &str) -> String {
         }
         let st = state_s(&w);
         let vs = views(&w);
-        let mon = crate::mon::monitors(&before, &w.store, &toks, &res, &vs.clusters, &vs.proxies, &mut prev);
+        let rtoks: Vec<&str> = rop.split_whitespace().collect();
+        let mon = crate::mon::monitors_with_truth(&before, &w.store, &rtoks, &res, &vs.clusters, &vs.proxies, &mut prev, &failed_truth);
+        crate::mon::update_failed_truth(&mut failed_truth, &rtoks, &res, &w.store);
         if verbose {
             outs.push(format!("{}\n  STATE {}\n  VIEWS\n{}  MON {}", res, st, vs.text, mon));
         } else {
